@@ -289,6 +289,8 @@ func (c *ccComp) runSeq(args []string) string {
 	case "windh":
 		vA, _ := strconv.Atoi(args[2])
 		return c.windowDelete(decPath(args[1]), vA, decPath(args[3]))
+	case "cdel":
+		return ccCondDelete()
 	case "stress":
 		seed, _ := strconv.ParseInt(args[1], 10, 64)
 		g, _ := strconv.Atoi(args[2])
@@ -1225,4 +1227,62 @@ func ccDumpHistory(init map[string]int, ops []*ccOp) {
 		fmt.Fprintf(os.Stderr, "g%d %s %s v=%d [%d,%d] ok=%v got=%d removed=%q seen=%v\n",
 			o.g, o.kind, encPath(o.path), o.val, o.inv, o.resp, o.ok, o.got, o.removed, o.seen)
 	}
+}
+
+
+// cc cdel: a conditional delete and an update through a retained leaf handle on the same path.  The delete
+// evaluates its condition on the value it read and reports — and removes — exactly that state of the leaf:
+// the update is made from INSIDE the condition callback (on the deleting goroutine, which holds the root's
+// write lock only; the handle takes the leaf's own lock), i.e. after the value was inspected and before it is
+// reported.  Every value handed to the delete's callback must satisfy the condition, for WalkDeleted and for
+// DeleteConditional, on leaves at several depths.  Found necessary by seeded change c10_seed9 (the leaf value
+// re-read after the condition was evaluated).  Observation: the monitor's verdict only.
+func ccCondDelete() string {
+	for depth := 1; depth <= 4; depth++ {
+		for variant := 0; variant < 2; variant++ {
+			t := &ctree.Tree{}
+			p := []string{"a", "b", "c", "d"}[:depth]
+			if err := t.Add(p, 10); err != nil {
+				return "mon=setup-failed"
+			}
+			t.Add([]string{"k"}, 12)
+			h := t.GetLeaf(p)
+			if h == nil {
+				return "mon=setup-failed"
+			}
+			updated := false
+			cond := func(v interface{}) bool {
+				n, _ := v.(int)
+				ok := n%2 == 0 // even values are deleted
+				if ok && n == 10 && !updated {
+					updated = true
+					h.Update(31) // lands after the value was inspected, before it is reported
+				}
+				return ok
+			}
+			var reported []interface{}
+			q := p[:1]
+			if variant == 0 {
+				t.WalkDeleted(q, cond, func(v interface{}) { reported = append(reported, v) })
+			} else {
+				// DeleteConditional reports paths only; the state it acted on shows in what is left
+				t.DeleteConditional(q, cond)
+			}
+			for _, v := range reported {
+				if n, _ := v.(int); n%2 != 0 {
+					return "mon=FAIL:delete-reported-a-value-its-condition-rejects depth=" + strconv.Itoa(depth)
+				}
+			}
+			if variant == 0 && len(reported) != 1 {
+				return "mon=FAIL:delete-reported-" + strconv.Itoa(len(reported)) + "-values depth=" + strconv.Itoa(depth)
+			}
+			if t.GetLeafValue(p) != nil {
+				return "mon=FAIL:leaf-survived-a-delete-whose-condition-it-met depth=" + strconv.Itoa(depth)
+			}
+			if v := t.GetLeafValue([]string{"k"}); v != 12 {
+				return "mon=FAIL:other-leaf-changed"
+			}
+		}
+	}
+	return "mon=ok"
 }
